@@ -110,7 +110,8 @@ def run(R):
     for op, m, line in list(zip(ops, meta, il))[::7]:
         if m[0] not in ("md5crypt", "sha256crypt", "sha512crypt"): continue
         t = op.split(" "); ph, st = unhx(t[3]) or b"", unhx(t[4])
-        if b"rounds=" in st or not ph or b"\n" in ph or len(st) < 4: continue
+        # `openssl passwd -stdin` reads one line into a bounded buffer: only phrases of at most 200 bytes without line-control bytes are comparable
+        if b"rounds=" in st or not ph or b"\n" in ph or b"\r" in ph or len(ph) > 200 or len(st) < 4: continue
         salt = st[3:].split(b"$")[0]
         if not salt or not all(c in S.A64 for c in salt): continue
         flag = {"md5crypt": "-1", "sha256crypt": "-5", "sha512crypt": "-6"}[m[0]]
